@@ -859,6 +859,25 @@ def _strftime(obj, fmt):
     return SymStr.mk(out)
 
 
+def _iso_time(t):
+    """HH:MM:SS[.ffffff][+HH:MM] as CPython's time/datetime.isoformat() writes it"""
+    ctx = Ctx.cur
+    out = _pad(t.hour, 2) + [":"] + _pad(t.minute, 2) + [":"] + _pad(t.second, 2)
+    us = t.microsecond
+    if (us != 0) if _isinstance(us, builtins.int) else ctx.decide(_zi(us) != 0):
+        out += ["."] + _pad(us, 6)
+    off = _tz_offset(t.tzinfo)
+    if off is not None:
+        if _isinstance(off, _dt.timedelta):
+            mins = builtins.int(off.total_seconds() // 60)
+        else:
+            mins = off.minutes
+        neg = (mins < 0) if _isinstance(mins, builtins.int) else ctx.decide(_zi(mins) < 0)
+        a = -mins if neg else mins
+        out += ["-" if neg else "+"] + _pad(a // 60, 2) + [":"] + _pad(a % 60, 2)
+    return out
+
+
 class SymDate:
     """datetime.date with symbolic fields (assumed a valid calendar date)"""
     kind = "date"
@@ -932,10 +951,12 @@ class SymTime:
         return _strftime(self, fmt)
 
     def __str__(self):
-        raise Unsupported("str() of a symbolic time")
+        return self.isoformat()
 
-    def isoformat(self, *a, **k):
-        raise Unsupported("isoformat of a symbolic time")
+    def isoformat(self, timespec="auto"):
+        if timespec != "auto":
+            raise Unsupported("isoformat timespec")
+        return SymStr.mk(_iso_time(self))
 
     def eqz(self, o):
         """same fields and same zone meaning (naive / equal offsets)"""
@@ -992,11 +1013,14 @@ class SymDatetime(SymDate):
     def utcoffset(self):
         return _tz_offset(self.tzinfo)
 
-    def isoformat(self, *a, **k):
-        raise Unsupported("isoformat of a symbolic datetime")
+    def isoformat(self, sep="T", timespec="auto"):
+        if timespec != "auto":
+            raise Unsupported("isoformat timespec")
+        return SymStr.mk(_pad(self.year, 4) + ["-"] + _pad(self.month, 2) + ["-"] + _pad(self.day, 2) + [sep]
+                         + _iso_time(self))
 
     def __str__(self):
-        raise Unsupported("str() of a symbolic datetime")
+        return self.isoformat(sep=" ")
 
     def astimezone(self, tz=None):
         raise Unsupported("astimezone of a symbolic datetime")
